@@ -183,6 +183,10 @@ def step_build_tools():
     with Lock("cargo"):
         if not os.path.exists(os.path.join(ROOT, "harness", "Cargo.lock")):
             sh(["cp", os.path.join(REPO, "Cargo.lock"), os.path.join(ROOT, "harness", "Cargo.lock")])
+        tmpl = open(os.path.join(ROOT, "harness", "Cargo.toml.in")).read().replace("@REPO@", REPO)
+        ct = os.path.join(ROOT, "harness", "Cargo.toml")
+        if not os.path.exists(ct) or open(ct).read() != tmpl:
+            open(ct, "w").write(tmpl)
         rc, out = sh(["cargo", "build", "--release", "--offline"], cwd=os.path.join(ROOT, "harness"), timeout=3000)
         if rc != 0:
             errs = "\n".join(l for l in out.splitlines() if not l.startswith("warning"))[-4000:]
